@@ -98,6 +98,7 @@ def profile(name):
         p['ops_w'].update({'fail': 3, 'shutdown': 3, 'restore': 4, 'work_order': 3.5, 'add_capacity': 2.5,
                            'block': 1, 'unblock': 1, 'rewire': 0.1, 'offset_cycle': 0.3})
         p['p_maintainer'] = 0.95
+        p['p_stop_in_release_window'] = 0.3
         p['p_same_instant'] = 0.4
     elif name == 'batching':      # C17
         p['stage_w'].update({'batcher': 7, 'buffer': 3, 'group': 0.3, 'nested_group': 0, 'gates': 0.7})
@@ -122,7 +123,7 @@ def profile(name):
         p['p_scheduler'] = 0.6
         p['p_batch_source'] = 0.25
         p['ops_w'].update({'work_order': 4, 'fail': 3})
-        p['stage_w'].update({'buffer': 5, 'processor': 6})
+        p['stage_w'].update({'buffer': 5, 'processor': 6, 'rework': 1.5})
     else:
         raise ValueError(name)
     return p
@@ -222,6 +223,8 @@ class Gen:
             if rng.random() < self.p.get('p_cost_step', 0.2):
                 it['wo_cost_step'] = rng.choice([0.5, 1, -0.25, 2.5])
         # (else: the library's default work-order duration / capacity / cost of 0)
+        if it.get('res') and rng.random() < self.p.get('p_stop_in_release_window', 0):
+            it['stop_in_release_window'] = rng.choice([2, 3, 5])
         if rng.random() < self.p.get('p_insert', 0):
             it['insert_part'] = rng.choice([1, 2, 3])     # a hand-made part added to every k-th finished batch
         if it['ct'] > 0 and not it.get('ct_script') and rng.random() < self.p.get('p_raise_finish', 0):
